@@ -18,7 +18,10 @@ func init() {
 		specs: func(tier string) []specRef {
 			t := hsx(rootPkg, "VerifC19_topology", nil, 100000, 1800, "refreshed", "unowned")
 			t.spec.MaxSteps = 50000000
-			return []specRef{t, redirect(tier)}
+			// redirects inside batches (doretry/doresultfn): shared with C20
+			b := hsd(rootPkg, "VerifC20_batch", nil, q(tier, 1, 2), 3000000, 3000, "done", "redirected")
+			b.spec.Overrides = merged(clusterOverrides, map[string]string{"(*github.com/redis/rueidis.clusterClient).refresh": "verifRefreshFill"})
+			return []specRef{t, redirect(tier), b}
 		},
 	}
 	checks["C28"] = &checkDef{
